@@ -326,12 +326,21 @@ class ClusterPlay:
         rng = self.rng
         z = self.fixed
         tip = "G"
-        for _ in range(rounds):
+        # half of the runs follow a plan: chains long enough to commit, the block that completes a commit
+        # shown to a few replicas only, then a new branch, and so on; the others improvise
+        plan = None
+        if rng.random() < 0.5:
+            plan = []
+            while len(plan) < rounds:
+                k = rng.choice([3, 3, 4])
+                plan += ["ext"] * (k - 1) + ["ext-few"] + ["fork"]
+        for rnd in range(rounds):
             v = max(self.view.values())
             cert = [b for b in self.certified_blocks() if self.blocks[b][0] < v] + ["G"]
-            fork = rng.random() < 0.25
+            intent = plan[rnd] if plan else None
+            fork = (intent == "fork") if plan else rng.random() < 0.25
             parent = rng.choice(cert) if fork or tip not in cert else tip
-            if fork and rng.random() < 0.4:
+            if fork and rng.random() < (0.6 if plan else 0.4):
                 parent = "G"
             agg = None
             if self.agg:
@@ -349,8 +358,21 @@ class ClusterPlay:
                         if not self.say(f"create-agg {z} {agg} {v - 1} " + " ".join(have[:self.q])).startswith("ok"):
                             agg = None
                     best = max((self.hqc[i] for i in self.nodes), key=lambda b: self.blocks.get(b, (0,))[0])
-                    parent = rng.choice([best, best, best, "G", rng.choice(cert)])
-            tg = list(self.nodes) if rng.random() < 0.6 else ([t for t in self.nodes if rng.random() < 0.6] or self.nodes[:1])
+                    parent = rng.choice([best, best, best, "G", rng.choice(cert)] if not (plan and fork) else [best, "G", "G", rng.choice(cert)])
+                    olds = getattr(self, "old_aggs", [])
+                    if agg:
+                        self.old_aggs = olds + [(agg, best)]
+                    if olds and fork and rng.random() < 0.6:
+                        # an aggregate QC kept from an earlier view change, with the block it pointed to then
+                        agg, parent = rng.choice(olds[:3] + olds)
+                        if rng.random() < 0.2:
+                            parent = "G"
+            if intent == "ext":
+                tg = list(self.nodes)
+            elif intent == "ext-few":
+                tg = rng.sample(self.nodes, rng.randrange(1, max(2, len(self.nodes))))
+            else:
+                tg = list(self.nodes) if rng.random() < 0.6 else ([t for t in self.nodes if rng.random() < 0.6] or self.nodes[:1])
             qn = self.qc_for(parent) if parent != "G" else "genesis"
             if qn is None:
                 parent, qn = "G", "genesis"
